@@ -10,6 +10,7 @@ def run(tier):
         if q == 'RegionGraph.__init__':
             reps.append(deductive.verify_function(rel, q, c, hooks=OW.hooks_for(c), prefix='%s::%s[oracle wiring]' % (rel, q)))
     reps.append(OW.frame_report())
+    reps.append(OW.schedule_report())
     # the sum-product message equations of loopy belief propagation, value-level (pv/contracts/fgbp.py)
     from ..contracts import fgbp as FG
     reps.append(deductive.verify_function(FG.ITEM[0], FG.ITEM[1], FG.ITEM[2], hooks=FG.hooks(), prefix='%s::%s[message equations]' % FG.ITEM[:2]))
